@@ -2,17 +2,19 @@
 """Compose /verif/seeded/<ID>/meta.json from the sub-agent's meta and the maintainer's own confirmation logs (/tmp/seed/<ID>.*)."""
 import glob, json, os, re, sys
 ids = sys.argv[1:]
+ROOT = os.environ.get("SEED_ROOT", "/tmp/seed")
+SFX = os.environ.get("SEED_SUFFIX", "")
 for i in ids:
-    out = f"/verif/seeded/{i}"
+    out = f"/verif/seeded/{i}{SFX}"
     am = {}
     try:
         am = json.load(open(f"{out}/agent_meta.json"))
     except Exception:
         pass
-    log = open(f"/tmp/seed/{i}.seedcheck.log").read()
+    log = open(f"{ROOT}/{i}.seedcheck.log").read()
     res = re.search(r"RESULT .*", log)
     checks = {}
-    for f in glob.glob(f"/tmp/seed/{i}.check_*.log"):
+    for f in glob.glob(f"{ROOT}/{i}.check_*.log"):
         p = re.search(r"check_(C\d+)\.log", f).group(1)
         t = open(f).read()
         mechs = re.findall(r"mechanism=(\S+)", t)
@@ -20,14 +22,14 @@ for i in ids:
         checks[p] = {"caught": "violated" in last, "verdict_line": last[:200], "mechanisms": sorted(set(mechs))[:8]}
     m = re.search(r"demo_with=(\d+) demo_without=(\d+) tests=(.*?) checks:", res.group(0)) if res else None
     meta = {
-        "id": i,
+        "id": i + SFX,
         "property_broken": am.get("property", i),
         "written_by": "fresh sub-agent given only the property text and a scratch worktree of /repo (nothing from /verif)",
         "summary": am.get("summary"),
         "needs_to_manifest": am.get("needs_to_manifest"),
         "files_changed": am.get("files_changed"),
         "confirmed_by_maintainer": {
-            "how": "tools/seedcheck.sh in the scratch worktree /tmp/seed/%s: demo with the change, demo with the change reverted, full pinned test suite with the change, then ./check against the worktree (VERIF_REPO)" % i,
+            "how": "tools/seedcheck.sh in the scratch worktree %s: demo with the change, demo with the change reverted, full pinned test suite with the change, then ./check against the worktree (VERIF_REPO)" % f"{ROOT}/{i}",
             "demo_exit_with_change": int(m.group(1)) if m else None,
             "demo_exit_without_change": int(m.group(2)) if m else None,
             "test_suite_with_change": m.group(3).strip() if m else None,
